@@ -56,6 +56,21 @@ CHECKS.update({
             "explicit-state exhaustive enumeration of (array, operation) on the implementation, per-fibre NumPy oracle"),
 })
 
+CHECKS.update({
+    "C10": ("DESIGN.md 5/C10",
+            "Every permutation / axis pair / (axis,start) / insertion position / squeeze / repeat / broadcast target and every depth-2 composition of "
+            "them is executed on arrays whose axes differ in kind and length; results are compared with reference ops and, independently, cell by cell "
+            "through the label-coordinate map of the input.",
+            "trusts reference ops + coordinate maps (mc/props/c10.py, mc/ref.py); T on >2-D and labels of size-1 broadcast insertions not covered",
+            "explicit-state exhaustive enumeration of operations and depth-2 operation sequences on the implementation, coordinate-map oracle"),
+    "C11": ("DESIGN.md 5/C11",
+            "Every ordered subset x container x insert x reverse for flatten, unflatten of each, reshape to every ordered partition of every permutation "
+            "(with new names / dropped singletons, also from grouped arrays) and tuple-vs-flattened reductions are executed; each result is checked through "
+            "a layout map (row-major unravel of grouped positions) against the input cells and member axes.",
+            "trusts the layout map in mc/props/c11.py; grouped tuple labels compared up to str(); default insert position unconstrained",
+            "explicit-state exhaustive enumeration of regrouping operations on the implementation, layout-map oracle"),
+})
+
 PENDING = ["C01", "C03", "C05", "C06", "C07", "C08", "C09", "C10", "C11", "C12", "C13", "C14", "C15", "C16", "C17", "C18", "C19", "C20"]
 
 
